@@ -614,14 +614,14 @@ static void check_c04(struct st *s)
                 int p = e->a;
                 const char *pname = lab_probes[p].name;
                 if (dead[p]) {
-                    if (e->b == UPROBE_DEAD) { snprintf(key, sizeof(key), "c04:%s:dead-twice", pname); vh_violation(key, "pipe %s threw dead twice", pname); }
+                    if (e->b == UPROBE_DEAD) { snprintf(key, sizeof(key), "c04:%s:dead-twice", pname); vh_violation_noabort(key, "pipe %s threw dead twice", pname); }
                     snprintf(key, sizeof(key), "c04:%s:event-after-dead:%s%s%s", pname, uprobe_event_str(e->b) ? uprobe_event_str(e->b) : "LOCAL", e->msg[0] ? ":" : "", e->msg);
-                    vh_violation(key, "pipe %s threw %s after its dead event (%s)", pname, uprobe_event_str(e->b) ? uprobe_event_str(e->b) : "a local event", e->msg);
+                    vh_violation_noabort(key, "pipe %s threw %s after its dead event (%s)", pname, uprobe_event_str(e->b) ? uprobe_event_str(e->b) : "a local event", e->msg);
                 }
                 if (!ready[p] && e->b != UPROBE_READY && e->b != UPROBE_LOG) {
                     /* requests for managers thrown while initialising are part of the allocation of many pipes */
                     snprintf(key, sizeof(key), "c04:%s:event-before-ready:%s", pname, uprobe_event_str(e->b) ? uprobe_event_str(e->b) : "LOCAL");
-                    vh_violation(key, "pipe %s threw %s before ready", pname, uprobe_event_str(e->b) ? uprobe_event_str(e->b) : "a local event");
+                    vh_violation_noabort(key, "pipe %s threw %s before ready", pname, uprobe_event_str(e->b) ? uprobe_event_str(e->b) : "a local event");
                 }
                 if (e->b == UPROBE_READY) ready[p] = true;
                 if (e->b == UPROBE_DEAD) dead[p] = true;
@@ -647,7 +647,7 @@ static void check_c04(struct st *s)
                 if (e->b && upstream[k] >= 0 && e->c == cur_def[upstream[k]]) need_def[k] = false;
                 if (upstream[k] >= 0 && dead[upstream[k]]) {
                     snprintf(key, sizeof(key), "c04:%s:touches-output-after-dead:set_flow_def", lab_probes[upstream[k]].name);
-                    vh_violation(key, "set_flow_def reached sink %d after its upstream threw dead", k);
+                    vh_violation_noabort(key, "set_flow_def reached sink %d after its upstream threw dead", k);
                 }
                 VH_COUNT("c04.negotiations");
                 break;
@@ -656,16 +656,16 @@ static void check_c04(struct st *s)
                 int k = e->a;
                 if (k < 0 || k >= 8 || upstream[k] < 0) break;
                 const char *pname = lab_probes[upstream[k]].name;
-                if (dead[upstream[k]]) { snprintf(key, sizeof(key), "c04:%s:touches-output-after-dead:input", pname); vh_violation(key, "a buffer reached sink %d after its upstream threw dead", k); }
-                if (last_rejected[k]) { snprintf(key, sizeof(key), "c04:%s:input-while-rejected", pname); vh_violation(key, "a buffer was delivered to sink %d although it rejected the flow definition", k); }
-                if (need_def[k]) { snprintf(key, sizeof(key), "c04:%s:input-before-flow-def", pname); vh_violation(key, "a buffer was delivered to sink %d before it accepted the current flow definition (%s)", k, any_def[k] ? "stale definition" : "no definition since connection"); }
+                if (dead[upstream[k]]) { snprintf(key, sizeof(key), "c04:%s:touches-output-after-dead:input", pname); vh_violation_noabort(key, "a buffer reached sink %d after its upstream threw dead", k); }
+                if (last_rejected[k]) { snprintf(key, sizeof(key), "c04:%s:input-while-rejected", pname); vh_violation_noabort(key, "a buffer was delivered to sink %d although it rejected the flow definition", k); }
+                if (need_def[k]) { snprintf(key, sizeof(key), "c04:%s:input-before-flow-def", pname); vh_violation_noabort(key, "a buffer was delivered to sink %d before it accepted the current flow definition (%s)", k, any_def[k] ? "stale definition" : "no definition since connection"); }
                 VH_COUNT("c04.inputs_checked");
                 break;
             }
             case EV_SINK_REGISTER:
                 if (e->a >= 0 && e->a < 8 && upstream[e->a] >= 0 && dead[upstream[e->a]]) {
                     snprintf(key, sizeof(key), "c04:%s:touches-output-after-dead:register_request", lab_probes[upstream[e->a]].name);
-                    vh_violation(key, "a request was registered on sink %d after its upstream threw dead", e->a);
+                    vh_violation_noabort(key, "a request was registered on sink %d after its upstream threw dead", e->a);
                 }
                 break;
             default: break;
@@ -673,8 +673,8 @@ static void check_c04(struct st *s)
     }
     /* every pipe allocated in the case announced itself and died exactly once */
     for (int p = 0; p < lab_nprobes; p++) {
-        if (!ready[p]) { snprintf(key, sizeof(key), "c04:%s:never-ready", lab_probes[p].name); vh_violation(key, "pipe %s never threw ready", lab_probes[p].name); }
-        if (!dead[p]) { snprintf(key, sizeof(key), "c04:%s:never-dead", lab_probes[p].name); vh_violation(key, "pipe %s was released but never threw dead", lab_probes[p].name); }
+        if (!ready[p]) { snprintf(key, sizeof(key), "c04:%s:never-ready", lab_probes[p].name); vh_violation_noabort(key, "pipe %s never threw ready", lab_probes[p].name); }
+        if (!dead[p]) { snprintf(key, sizeof(key), "c04:%s:never-dead", lab_probes[p].name); vh_violation_noabort(key, "pipe %s was released but never threw dead", lab_probes[p].name); }
     }
     (void)s;
 }
@@ -689,13 +689,13 @@ static void check_c05_async(struct st *s)
     for (int i = 0; i < lab_ninputs; i++) {
         struct sink_input *o = &lab_inputs[i];
         if (o->seq == UINT64_MAX || o->sink < 0 || o->sink >= 8) continue;
-        if (o->seq >= (uint64_t)nin) { snprintf(key, sizeof(key), "c05:%s:buffer-duplicated-or-invented", s->d->name); vh_violation(key, "sink received seq %" PRIu64 " which was never sent", o->seq); }
-        if (delivered[o->seq]) { snprintf(key, sizeof(key), "c05:%s:buffer-duplicated-or-invented", s->d->name); vh_violation(key, "seq %" PRIu64 " delivered twice", o->seq); }
+        if (o->seq >= (uint64_t)nin) { snprintf(key, sizeof(key), "c05:%s:buffer-duplicated-or-invented", s->d->name); vh_violation_noabort(key, "sink received seq %" PRIu64 " which was never sent", o->seq); continue; }
+        if (delivered[o->seq]) { snprintf(key, sizeof(key), "c05:%s:buffer-duplicated-or-invented", s->d->name); vh_violation_noabort(key, "seq %" PRIu64 " delivered twice", o->seq); }
         delivered[o->seq] = true;
-        if (seen_any[o->sink] && o->seq <= last[o->sink]) { snprintf(key, sizeof(key), "c05:%s:reordered", s->d->name); vh_violation(key, "seq %" PRIu64 " delivered after %" PRIu64, o->seq, last[o->sink]); }
+        if (seen_any[o->sink] && o->seq <= last[o->sink]) { snprintf(key, sizeof(key), "c05:%s:reordered", s->d->name); vh_violation_noabort(key, "seq %" PRIu64 " delivered after %" PRIu64, o->seq, last[o->sink]); }
         last[o->sink] = o->seq; seen_any[o->sink] = true;
         struct in_rec *rec = &IN[o->seq];
-        if (s->d->expect == x_identity && (o->size != rec->n || (o->copy && memcmp(o->copy, rec->bytes, rec->n)))) { snprintf(key, sizeof(key), "c05:%s:payload", s->d->name); vh_violation(key, "seq %" PRIu64 ": payload changed", o->seq); }
+        if (s->d->expect == x_identity && (o->size != rec->n || (o->copy && memcmp(o->copy, rec->bytes, rec->n)))) { snprintf(key, sizeof(key), "c05:%s:payload", s->d->name); vh_violation_noabort(key, "seq %" PRIu64 ": payload changed", o->seq); }
         VH_COUNT("c05.async_deliveries_checked");
     }
 }
@@ -823,16 +823,16 @@ static void check_c14(struct st *s)
         struct sink_input *o = &lab_inputs[i];
         if (pos + o->size > stream_in_n || (o->copy && memcmp(o->copy, stream_in + pos, o->size))) {
             snprintf(key, sizeof(key), "c14:%s:octets-not-from-input-in-order", s->d->name);
-            vh_violation(key, "output unit %d (%zu octets at stream position %zu of %zu accepted) is not the next octets of the input stream", i, o->size, pos, stream_in_n); }
+            vh_violation_noabort(key, "output unit %d (%zu octets at stream position %zu of %zu accepted) is not the next octets of the input stream", i, o->size, pos, stream_in_n); return; }
         if (u >= ref_nunits || ref_units[u] != o->size) {
             snprintf(key, sizeof(key), "c14:%s:unit-size", s->d->name);
-            vh_violation(key, "output unit %d has %zu octets, the documented regrouping gives %zu (unit %d of %d)", i, o->size, u < ref_nunits ? ref_units[u] : (size_t)0, u, ref_nunits); }
+            vh_violation_noabort(key, "output unit %d has %zu octets, the documented regrouping gives %zu (unit %d of %d)", i, o->size, u < ref_nunits ? ref_units[u] : (size_t)0, u, ref_nunits); return; }
         pos += o->size; u++;
         VH_COUNT("c14.units_checked");
     }
     if (u != ref_nunits || pos != stream_in_n) {
         snprintf(key, sizeof(key), "c14:%s:octets-lost", s->d->name);
-        vh_violation(key, "%zu of %zu accepted octets were output in %d units, the documented regrouping gives %d units", pos, stream_in_n, u, ref_nunits); }
+        vh_violation_noabort(key, "%zu of %zu accepted octets were output in %d units, the documented regrouping gives %d units", pos, stream_in_n, u, ref_nunits); }
 }
 
 struct hist_out { int n; struct { int sink; uint64_t seq, hash; size_t size; } *o; int ndefs; uint64_t *defs; };
@@ -956,6 +956,217 @@ static void exec_history(uint64_t seed, bool getters, struct hist_out *out)
     VH_COUNT("c01.accounted_cases");
 }
 
+
+/* ------------------------------------------------------------------ */
+/* C12: requests travel downstream, answers travel back                */
+/* ------------------------------------------------------------------ */
+#define C12_MAXP 3
+#define C12_MAXR 4
+struct c12_req {
+    struct urequest req;
+    int type;
+    bool registered;            /* model */
+    int provided;               /* callbacks received while registered */
+    int late;                   /* callbacks received while NOT registered */
+    bool bad_value;
+    bool probe_lodged;          /* thrown to the probe of the end-of-chain pipe since the last re-plumbing */
+};
+static struct c12_req C12R[C12_MAXR];
+static struct upipe *c12_pipes[C12_MAXP];
+static int c12_pipe_ids[C12_MAXP];
+static int c12_out[C12_MAXP];      /* -2 next pipe, -1 none, >= 0 sink index */
+static int c12_n;
+static struct upipe *c12_sinks[3];
+
+static struct c12_req *c12_origin(struct urequest *r)
+{
+    for (int depth = 0; r && depth < 8; depth++) {
+        for (int i = 0; i < C12_MAXR; i++) if (r == &C12R[i].req) return &C12R[i];
+        r = urequest_get_opaque(r, struct urequest *);
+    }
+    return NULL;
+}
+
+static int c12_provide(struct urequest *req, va_list args)
+{
+    struct c12_req *r = c12_origin(req);
+    if (!r) return UBASE_ERR_INVALID;
+    bool ok = true;
+    switch (r->type) {
+        case UREQUEST_UREF_MGR: { struct uref_mgr *m = va_arg(args, struct uref_mgr *); ok = m == E.uref_mgr; uref_mgr_release(m); break; }
+        case UREQUEST_UCLOCK: { struct uclock *c = va_arg(args, struct uclock *); ok = c == E.uclock; uclock_release(c); break; }
+        case UREQUEST_UBUF_MGR: { struct ubuf_mgr *m = va_arg(args, struct ubuf_mgr *); struct uref *ff = va_arg(args, struct uref *); ok = m != NULL; ubuf_mgr_release(m); uref_free(ff); break; }
+        case UREQUEST_FLOW_FORMAT: { struct uref *ff = va_arg(args, struct uref *); ok = ff != NULL; uref_free(ff); break; }
+        case UREQUEST_SINK_LATENCY: { (void)va_arg(args, uint64_t); ok = true; /* pipes on the way may add their own latency */ break; }
+    }
+    if (!r->registered) r->late++;
+    else { r->provided++; if (!ok) r->bad_value = true; }
+    return UBASE_ERR_NONE;
+}
+
+static bool c12_probe_hook(struct rprobe *rp, struct upipe *upipe, int event, va_list args, int *ret_p)
+{
+    (void)upipe; (void)ret_p;
+    if (event == UPROBE_PROVIDE_REQUEST) {
+        struct urequest *req = va_arg(args, struct urequest *);
+        struct c12_req *r = c12_origin(req);
+        if (r) for (int k = 0; k < c12_n; k++) if (c12_pipe_ids[k] == rp->id) r->probe_lodged = true;
+    }
+    return false;   /* let the real providers answer */
+}
+
+static int c12_end_of_chain(void)
+{
+    int k = 0;
+    while (k < c12_n - 1 && c12_out[k] == -2) k++;
+    return k;
+}
+
+static bool c12_match(struct urequest *req, void *arg) { return c12_origin(req) == (struct c12_req *)arg; }
+int lab_sink_count_match(struct upipe *sink, bool (*match)(struct urequest *, void *), void *arg);
+
+static void c12_quiescent_check(const char *after)
+{
+    int end = c12_end_of_chain();
+    char key[96];
+    for (int i = 0; i < C12_MAXR; i++) {
+        struct c12_req *r = &C12R[i];
+        if (r->late) { vh_violation("c12:callback-after-unregister", "after %s: the callback of request %d (%s) was invoked although it is not registered", after, i, urequest_type_str(r->type)); }
+        if (r->bad_value) { vh_violation("c12:wrong-answer", "after %s: request %d (%s) received a value that is not the one provided", after, i, urequest_type_str(r->type)); }
+        for (int sidx = 0; sidx < 3; sidx++) {
+            int n = lab_sink_count_match(c12_sinks[sidx], c12_match, r);
+            int want = r->registered && c12_out[end] == sidx ? 1 : 0;
+            if (n != want) {
+                snprintf(key, sizeof(key), "c12:%s", n > want ? (want ? "registered-twice" : (r->registered ? "not-withdrawn-from-old-output" : "still-lodged-after-unregister")) : "not-forwarded-to-output");
+                vh_violation(key, "after %s: request %d (%s, %s) is lodged %d times on sink %d, expected %d (chain of %d pipes ends at pipe %d whose output is %d)", after, i, urequest_type_str(r->type), r->registered ? "registered" : "not registered", n, sidx, want, c12_n, end, c12_out[end]);
+            }
+        }
+        VH_COUNT("c12.lodging_checks");
+    }
+}
+
+static const char *c12_forwarders[] = { "idem", "skip", "delay", "setattr", "setrap", "nodemux", "noclock", "probe_uref", "match_attr", "htons", "dup", "setflowdef" };
+
+static void c12_case(struct vh_rng *r)
+{
+    R = r;
+    memset(&S, 0, sizeof(S));
+    lab_nev = 0; lab_log_overflow = false; lab_inputs_reset(); pooltrack_reset(); lab_nprobes = 0;
+    lab_probe_hook = c12_probe_hook;
+    lab_env_init(vh_below(R, 3));
+    memset(C12R, 0, sizeof(C12R));
+    c12_n = 1 + vh_below(R, C12_MAXP);
+    char names[128] = "";
+    for (int k = 0; k < c12_n; k++) {
+        const char *nm = c12_forwarders[vh_below(R, sizeof(c12_forwarders) / sizeof(c12_forwarders[0]))];
+        const struct desc *d = NULL;
+        for (int i = 0; i < NCAT; i++) if (!strcmp(catalogue[i].name, nm)) d = &catalogue[i];
+        struct upipe_mgr *mgr = d->mgr_alloc();
+        c12_pipes[k] = upipe_void_alloc(mgr, lab_probe_new(nm, &c12_pipe_ids[k]));
+        upipe_mgr_release(mgr);
+        strcat(names, nm); strcat(names, ">");
+        vh_count_dyn("c12.pipe.%s", nm);
+    }
+    for (int k = 0; k < c12_n - 1; k++) { upipe_set_output(c12_pipes[k], c12_pipes[k + 1]); c12_out[k] = -2; }
+    c12_out[c12_n - 1] = -1;
+    for (int k = 0; k < 3; k++) { c12_sinks[k] = lab_sink_new("sink", NULL); lab_sink_set_request_mode(c12_sinks[k], vh_below(R, 3)); }
+    vh_tr("c12 chain=%s", names);
+    int nops = 8 + vh_below(R, 24);
+    for (int i = 0; i < nops; i++) {
+        int c = vh_below(R, 100);
+        if (c < 30) {
+            int k = vh_below(R, C12_MAXR);
+            struct c12_req *q = &C12R[k];
+            if (q->registered) continue;
+            static const int types[] = { UREQUEST_UREF_MGR, UREQUEST_UBUF_MGR, UREQUEST_UCLOCK, UREQUEST_FLOW_FORMAT, UREQUEST_SINK_LATENCY };
+            q->type = types[vh_below(R, 5)];
+            struct uref *fd = (q->type == UREQUEST_UBUF_MGR || q->type == UREQUEST_FLOW_FORMAT) ? make_flow_def("block.", 1) : NULL;
+            urequest_init(&q->req, q->type, fd, c12_provide, NULL);
+            q->provided = 0; q->late = 0; q->bad_value = false; q->probe_lodged = false;
+            q->registered = true;       /* the callback may run during registration */
+            OP("register(r%d,%s)", k, urequest_type_str(q->type));
+            upipe_register_request(c12_pipes[0], &q->req);
+            VH_COUNT("c12.register");
+            /* with real providers behind the probes, managers and clocks are answered at once */
+            int end = c12_end_of_chain();
+            bool answered_now = (c12_out[end] == -1 && (q->type == UREQUEST_UREF_MGR || q->type == UREQUEST_UCLOCK || q->type == UREQUEST_UBUF_MGR)) ||
+                                (c12_out[end] >= 0 && lab_sink_id(c12_sinks[c12_out[end]]) >= 0 && 0);
+            if (c12_out[end] == -1 && !q->probe_lodged)
+                vh_violation("c12:not-thrown-to-probe", "request r%d (%s) registered on a chain without output was not thrown to the probe of its last pipe", k, urequest_type_str(q->type));
+            if (answered_now && !q->provided)
+                vh_violation("c12:answer-not-delivered", "request r%d (%s) reached the probe of the last pipe, which provides it, but the requester's callback was not invoked", k, urequest_type_str(q->type));
+            if (q->provided) VH_COUNT("c12.answered");
+        } else if (c < 45) {
+            int k = vh_below(R, C12_MAXR);
+            struct c12_req *q = &C12R[k];
+            if (!q->registered) continue;
+            OP("unregister(r%d)", k);
+            q->registered = false;
+            upipe_unregister_request(c12_pipes[0], &q->req);
+            urequest_clean(&q->req); q->req.uref = NULL;
+            VH_COUNT("c12.unregister");
+        } else if (c < 70) {
+            int k = vh_below(R, c12_n);
+            int o = vh_below(R, 5) - 2;          /* -2 next, -1 none, 0..2 sink */
+            if (o == -2 && k == c12_n - 1) o = -1;
+            /* a sink has a single upstream */
+            if (o >= 0) { bool used = false; for (int j = 0; j < c12_n; j++) if (j != k && c12_out[j] == o) used = true; if (used) continue; }
+            OP("set_output(p%d,%d)", k, o);
+            for (int q = 0; q < C12_MAXR; q++) C12R[q].probe_lodged = false;
+            upipe_set_output(c12_pipes[k], o == -2 ? c12_pipes[k + 1] : o == -1 ? NULL : c12_sinks[o]);
+            c12_out[k] = o;
+            VH_COUNT("c12.replumb");
+        } else if (c < 85) {
+            int sidx = vh_below(R, 3);
+            OP("sink%d.provide_all", sidx);
+            int before[C12_MAXR];
+            for (int q = 0; q < C12_MAXR; q++) before[q] = C12R[q].provided;
+            lab_sink_provide_all(c12_sinks[sidx]);
+            int end = c12_end_of_chain();
+            for (int q = 0; q < C12_MAXR; q++)
+                if (C12R[q].registered && c12_out[end] == sidx && C12R[q].provided == before[q])
+                    vh_violation("c12:answer-not-delivered", "sink %d provided request r%d (%s) but the original requester's callback was not invoked", sidx, q, urequest_type_str(C12R[q].type));
+                else if (C12R[q].registered && c12_out[end] == sidx) VH_COUNT("c12.answered");
+        } else if (c < 92) {
+            int sidx = vh_below(R, 3), m = vh_below(R, 3);
+            OP("sink%d.request_mode=%d", sidx, m);
+            lab_sink_set_request_mode(c12_sinks[sidx], m);
+        } else {
+            /* answers arriving after unregistration must not reach the requester */
+            for (int sidx = 0; sidx < 3; sidx++) lab_sink_provide_all(c12_sinks[sidx]);
+        }
+        c12_quiescent_check(opname);
+    }
+    /* teardown: some requests are withdrawn first, the others stay pending */
+    for (int q = 0; q < C12_MAXR; q++)
+        if (C12R[q].registered && vh_chance(R, 1, 2)) { C12R[q].registered = false; upipe_unregister_request(c12_pipes[0], &C12R[q].req); urequest_clean(&C12R[q].req); C12R[q].req.uref = NULL; }
+    int order[C12_MAXP] = { 0, 1, 2 };
+    for (int k = c12_n - 1; k > 0; k--) { int j = vh_below(R, k + 1); int t = order[k]; order[k] = order[j]; order[j] = t; }
+    for (int k = 0; k < c12_n; k++) { upipe_release(c12_pipes[order[k]]); }
+    /* the pipes are gone: nothing of theirs may remain lodged on the sinks */
+    for (int q = 0; q < C12_MAXR; q++) {
+        C12R[q].registered = false;      /* pending requests die with the pipe they were registered on */
+        for (int sidx = 0; sidx < 3; sidx++)
+            if (lab_sink_count_match(c12_sinks[sidx], c12_match, &C12R[q]))
+                vh_violation("c12:still-lodged-after-release", "request r%d is still registered on sink %d after the whole chain was released", q, sidx);
+        if (C12R[q].req.uref) { uref_free(C12R[q].req.uref); C12R[q].req.uref = NULL; }
+    }
+    for (int sidx = 0; sidx < 3; sidx++) if (lab_sink_nb_requests(c12_sinks[sidx]))
+        vh_violation("c12:proxy-left-on-output", "sink %d still holds %d registrations after the whole chain was released", sidx, lab_sink_nb_requests(c12_sinks[sidx]));
+    for (int k = 0; k < 3; k++) upipe_release(c12_sinks[k]);
+    check_c04(&S);
+    lab_probes_release();
+    long live = pooltrack_live();
+    if (live) vh_violation("c01:c12:objects-still-held", "%ld pooled objects still held after a request history", live);
+    struct umem_mgr *umem_keep = umem_mgr_use(E.umem);
+    struct cumem_stats *cst = cumem_stats(umem_keep);
+    const char *bad = lab_env_fini();
+    if (bad && strcmp(bad, "umem_mgr")) vh_violation("c01:c12:manager-still-referenced", "%s still referenced after a request history (a proxy or an answer was leaked)", bad);
+    if (cst->live) vh_violation("c01:c12:memory-still-allocated", "%ld umem blocks still allocated after a request history", (long)cst->live);
+    umem_mgr_release(umem_keep);
+    vh_nontrivial(case_hash);
+}
+
 /* C14 metamorphic check: the unit sequence of a stream re-chunker depends only
  * on the byte stream, not on how it is cut into buffers */
 static void c14_cutting_case(struct vh_rng *r)
@@ -1025,6 +1236,7 @@ static void c14_cutting_case(struct vh_rng *r)
 static void run_case(struct vh_rng *r)
 {
     case_hash = 0;
+    if (mode == MODE_C12) { c12_case(r); if (vh_want_sample()) vh_sample("%s", vh_trace); return; }
     if (mode == MODE_C14 && only_pipe < 0 && vh_chance(r, 1, 3)) { c14_cutting_case(r); if (vh_want_sample()) vh_sample("%s", vh_trace); return; }
     uint64_t seed = vh_rand(r);
     if (mode != MODE_C20) {
